@@ -7,7 +7,9 @@ Mirrors, per backend, what one *attempt* of `upload_stream` / `download_stream` 
 visible object when a fault hits it at a given place, and the retry machinery wrapped around the attempts:
 
 * `backoff.on_exception(…, max_tries=…, giveup=…)` — `while True: tries += 1; try … except exc: if giveup(e) or tries == max_tries:
-  raise; <on_backoff handlers>; sleep` (backoff/_async.py, _sync.py; note the *equality* test on `tries`);
+  raise; <on_backoff handlers>; sleep` (backoff/_async.py, _sync.py; note the *equality* test on `tries`); the `giveup=`
+  predicate is a status code for the HTTP adapters and, for the local adapter, a set of OSError classes (errno values — the
+  extractor tabulates the predicate over `Gen.retryOsUniverse`; the current source has no such predicate: the set is empty);
 * the `try: … except: [temp.unlink();] stream.seek(0); raise` of every streaming method (replicat/backends/local.py, s3c.py, b2.py);
 * S3: the payload digest is computed once, outside the retry loop, over the stream from its current position, then `seek(0)`;
   the body is `iter(lambda: stream.read(c), b'')` from the current position, `content-length` is the declared length;
@@ -34,6 +36,7 @@ structure Cfg where
   maxTries : Option Nat          -- `max_tries=` of the back-off decorator
   catches : Bool                 -- the decorator catches the adapter's error class (OSError resp. httpx.HTTPError)
   giveupStatus : Option Nat      -- status for which `giveup=` says True
+  giveupOs : List Nat            -- local: errno classes of OSError for which `giveup=` says True (0 = an OSError without errno)
   upRewind : Option Nat          -- `stream.seek(k)` in the except-branch of the upload (none: no seek)
   upCatchAll : Bool              -- that branch catches everything and re-raises
   upUnlink : Bool                -- local: `temp.unlink()` in that branch
@@ -57,6 +60,7 @@ def localCfg : Cfg where
   maxTries := Gen.retryLocalMaxTries
   catches := Gen.retryLocalCatchesOSError
   giveupStatus := none
+  giveupOs := Gen.retryLocalGiveupErrnos
   upRewind := Gen.retryLocalUpRewind
   upCatchAll := Gen.retryLocalUpCatchAll
   upUnlink := Gen.retryLocalUpUnlink
@@ -79,6 +83,7 @@ def s3Cfg : Cfg where
   maxTries := Gen.retryS3MaxTries
   catches := Gen.retryS3CatchesHTTPError
   giveupStatus := Gen.retryS3GiveupStatus
+  giveupOs := []
   upRewind := Gen.retryS3UpRewind
   upCatchAll := Gen.retryS3UpCatchAll
   upUnlink := false
@@ -101,6 +106,7 @@ def b2Cfg : Cfg where
   maxTries := Gen.retryB2MaxTries
   catches := Gen.retryB2CatchesHTTPError
   giveupStatus := Gen.retryB2GiveupStatus
+  giveupOs := []
   upRewind := Gen.retryB2UpRewind
   upCatchAll := Gen.retryB2UpCatchAll
   upUnlink := false
@@ -181,10 +187,33 @@ inductive Fault
   | status (code : Nat) (retryAfter : Bool)  -- HTTP: complete request, the service answers `code` and stores nothing
   | lost                                 -- HTTP upload: complete request, stored, the response is lost
   | rename                               -- local upload: `os.replace` fails
+  | errno (k : Nat) (f : Fault)          -- local: fault `f`, surfacing as an OSError of class `k` (its errno: 2 = ENOENT →
+                                         -- FileNotFoundError, 13 = EACCES → PermissionError, 28 = ENOSPC, …; 0 = no errno)
+                                         -- instead of the default EIO; e.g. `errno 2 mktemp` = the freshly created directory is
+                                         -- gone again when the temp file is created (a concurrent `clean` removed it)
 deriving DecidableEq, Repr
 
+/-- the errno of an injected OSError that does not say otherwise -/
+def EIO : Nat := 5
+
+/-- the place a fault hits (`errno k f` hits where `f` hits) -/
+def Fault.base : Fault → Fault
+  | .errno _ f => f
+  | f => f
+
+/-- the errno class a (local) fault surfaces with -/
+def Fault.osClass : Fault → Nat
+  | .errno k _ => k
+  | _ => EIO
+
+def faultBase (f : Option Fault) : Option Fault := f.map Fault.base
+def faultClass : Option Fault → Nat
+  | some x => x.osClass
+  | none => EIO
+
 inductive Err
-  | os | transport
+  | os (errno : Nat)                     -- OSError of the class with this errno (0: none)
+  | transport
   | status (code : Nat) (retryAfter : Bool)
   | auth                                 -- replicat.exceptions.AuthRequired
 deriving DecidableEq, Repr
@@ -243,17 +272,21 @@ def faultSrc : Option Fault → Option Nat | some (.src j) => some j | _ => none
 def faultMid : Option Fault → Option Nat | some (.mid j) => some j | _ => none
 def faultSink : Option Fault → Option Nat | some (.sink j) => some j | _ => none
 
-/-- `Local.upload_stream` -/
-def localUp (cfg : Cfg) (c : Nat) (f : Option Fault) (st : UState) : Att UState :=
-  if f = some .mktemp then ⟨some .os, st, 0⟩             -- `_destination_temp` is outside the try: no unlink, no seek
+/-- `Local.upload_stream` with a fault at place `f` that surfaces as an OSError of class `k` -/
+def localUpAt (cfg : Cfg) (c : Nat) (k : Nat) (f : Option Fault) (st : UState) : Att UState :=
+  if f = some .mktemp then ⟨some (.os k), st, 0⟩         -- `_destination_temp` is outside the try: no unlink, no seek
   else
     let fail (s : Src) (n : Nat) : Att UState :=
-      ⟨some .os, exceptUp cfg { st with src := s, temps := if cfg.upCatchAll && cfg.upUnlink then st.temps else st.temps + 1 }, n⟩
+      ⟨some (.os k), exceptUp cfg { st with src := s, temps := if cfg.upCatchAll && cfg.upUnlink then st.temps else st.temps + 1 }, n⟩
     if f = some .pre then fail st.src 0
     else
       match copyLoop (· ++ ·) c (faultSrc f) (faultMid f) (st.src.data.length + 1) 0 st.src [] with
       | (.done, s, t) => if f = some .rename then fail s t.length else ⟨none, { st with src := s, visible := some t }, t.length⟩
       | (_, s, t) => fail s t.length
+
+/-- `Local.upload_stream` -/
+def localUp (cfg : Cfg) (c : Nat) (f : Option Fault) (st : UState) : Att UState :=
+  localUpAt cfg c (faultClass f) (faultBase f) st
 
 /-- B2's `_raise_for_status_hook`: one status becomes AuthRequired -/
 def hook (cfg : Cfg) (code : Nat) (ra : Bool) : Err :=
@@ -298,15 +331,19 @@ def s3Digest (cfg : Cfg) (st : UState) : Bytes × UState :=
 def exceptDown (cfg : Cfg) (k : Sink) : Sink :=
   if cfg.downCatchAll then k.rewind cfg.downRewind else k
 
-/-- `Local.download_stream` -/
-def localDown (cfg : Cfg) (c : Nat) (obj : Bytes) (f : Option Fault) (st : Sink) : Att Sink :=
-  if f = some .pre then ⟨some .os, st, 0⟩                -- `open` is outside the try
-  else if f = some .trunc ∧ cfg.downTruncate = true then ⟨some .os, exceptDown cfg st, 0⟩
+/-- `Local.download_stream` with a fault at place `f` that surfaces as an OSError of class `e` -/
+def localDownAt (cfg : Cfg) (c : Nat) (obj : Bytes) (e : Nat) (f : Option Fault) (st : Sink) : Att Sink :=
+  if f = some .pre then ⟨some (.os e), st, 0⟩            -- `open` is outside the try
+  else if f = some .trunc ∧ cfg.downTruncate = true then ⟨some (.os e), exceptDown cfg st, 0⟩
   else
     let k := if cfg.downTruncate then st.truncate obj.length else st
     match copyLoop Sink.write c (faultMid f) (faultSink f) (obj.length + 1) 0 ⟨obj, 0⟩ k with
     | (.done, _, k') => ⟨none, k', k'.pos - st.pos⟩
-    | (_, _, k') => ⟨some .os, exceptDown cfg k', k'.pos - st.pos⟩
+    | (_, _, k') => ⟨some (.os e), exceptDown cfg k', k'.pos - st.pos⟩
+
+/-- `Local.download_stream` -/
+def localDown (cfg : Cfg) (c : Nat) (obj : Bytes) (f : Option Fault) (st : Sink) : Att Sink :=
+  localDownAt cfg c obj (faultClass f) (faultBase f) st
 
 /-- `S3Compatible.download_stream` / `B2.download_stream`: errors before the body (connection, status) are raised outside the try -/
 def httpDown (cfg : Cfg) (c : Nat) (obj : Bytes) (f : Option Fault) (st : Sink) : Att Sink :=
@@ -341,8 +378,11 @@ def policy (b : Backend) (cfg : Cfg) (decorated requiresAuth : Bool) (e : Err) (
   match e with
   | .auth => viaAuth false
   | _ =>
-    let caught : Bool := decorated && cfg.catches && (match e with | .os => b == .local | _ => b != .local)
-    let giveup : Bool := match e with | .status code _ => cfg.giveupStatus == some code | _ => false
+    let caught : Bool := decorated && cfg.catches && (match e with | .os _ => b == .local | _ => b != .local)
+    let giveup : Bool := match e with
+      | .status code _ => cfg.giveupStatus == some code
+      | .os k => cfg.giveupOs.contains k
+      | _ => false
     if !caught then .raise e false
     else if giveup || limitHit cfg.maxTries tries then .raise e false
     else
